@@ -12,7 +12,7 @@ from .common import call, call_func, driver_interp, new_obj
 
 
 def run(P: Program, rep: Report):
-    rep.not_decided += ["the case of words containing braces / special characters ({\\'E}x): their text is checked, their case class is not",
+    rep.not_decided += ["BibTeX's 13 built-in control sequences (\\oe, \\AA, ...) in special characters: their case is not compared",
                         "names with more words per section than the partition table explores"]
     fi = P.func("middlewares.names", "parse_single_name_into_parts")
     rep.rule("C13.R1", "containment: the only exception parse_single_name_into_parts raises is InvalidNameError, exactly for "
@@ -47,7 +47,8 @@ def run(P: Program, rep: Report):
                        "after every character exactly the reference's words per comma section (escapes kept with their "
                        "character, separators only at brace depth 0, nothing dropped or duplicated); on return first+von+last / "
                        "jr / first are exactly the words of their sections in order; invalid names raise exactly when the "
-                       "reference says so")
+                       "reference says so; every completed word is classified lower-case exactly when BibTeX's von_token_found "
+                       "does (letters in ordinary braces do not count, a top-level {\\... special character decides by its first letter)")
     ex = nameparts.TokExplorer(P, rep.tier).explore()
     rep.count("tokeniser_states", len(ex.visited))
     rep.count("tokeniser_paths", ex.paths)
